@@ -92,6 +92,8 @@ def c02(rep, env):
         # the definition must hold for both ways of passing buffers: the in-place summary equals the
         # buffer-to-buffer summary that was compared with the recurrence above
         only(rep, lambda r: BM.check_inplace(r, fb, crates={"cbc", "pcbc", "ige"}), pre("alias.same", "alias.no-old-output"))
+        # a clone must carry on the same recurrence (chaining value copied field by field)
+        IR.check_clone_bodies(rep, fb, crates={"cbc", "pcbc", "ige"})
     per_config(rep, env, f)
 
 
@@ -105,6 +107,7 @@ def c03(rep, env):
         BC.check_state(rep, fb)      # "any chunking of the calls" includes resuming from an exported (block, position)
         BC.check_init(rep, fb)
         only(rep, lambda r: BM.check_inplace(r, fb, crates={"cfb_mode", "cfb8", "ofb"}), pre("alias.same", "alias.no-old-output"))
+        IR.check_clone_bodies(rep, fb, crates={"cfb_mode", "cfb8", "ofb"})
     per_config(rep, env, f)
 
 
@@ -115,6 +118,7 @@ def c04(rep, env):
         only(rep, lambda r: SM.check_ctr_core(r, fb), pre("ctr.core"))
         MI.check_plumbing(rep, fb, crates={"ctr"})
         MI.check_enc_only(rep, fb, crates={"ctr"})
+        IR.check_clone_bodies(rep, fb, crates={"ctr"})
     per_config(rep, env, f)
 
 
